@@ -102,6 +102,15 @@ def triggers(n):
         "substitution_nested": (["```{note}", f"{{{{ nosuchkey{n} }}}}", "```"], "myst.substitution"),
         "xref_missing_nested": (["```{note}", f"see [text {n}](#nopen-{n}) end", "```"], "myst.xref_missing"),
         "attribute_nested": (["> " + f"![a](i.png){{w=notalength{n}}}"], "myst.attribute"),
+        # the same constructs inside text from which titles, ids and link texts are derived (headings, captions, terms)
+        "strikethrough_in_heading": ([f"## Release ~~draft {n}~~ notes"], "myst.strikethrough"),
+        "role_unknown_in_heading": ([f"## Title {{nosuchrole{n}}}`x` tail {n}"], "myst.role_unknown"),
+        "substitution_in_heading": ([f"## Sub {{{{ nosuchkey{n} }}}} tail {n}"], "myst.substitution"),
+        "attribute_in_heading": ([f"## Img ![a](i.png){{w=notalength{n}}} tail {n}"], "myst.attribute"),
+        "xref_missing_in_heading": ([f"## See [t {n}](#nopeh-{n}) end"], "myst.xref_missing"),
+        "strikethrough_in_caption": (["```{figure} i.png", f":name: fg{n}", "", f"caption ~~gone {n}~~", "```", "", f"see [](#fg{n})"], "myst.strikethrough"),
+        "role_unknown_in_term": ([f"term {{nosuchrole{n}}}`x` {n}", ": definition"], "myst.role_unknown"),
+        "strikethrough_in_labelled_heading": ([f"(lh{n})=", f"## Labelled ~~old {n}~~ heading", "", f"see [](#lh{n})"], "myst.strikethrough"),
         "plain": ([f"just a paragraph {n}"], None),
         "plain_list": ([f"- item {n}", "- item b"], None),
     }
